@@ -466,7 +466,61 @@ def file_state_rule(ctx, rid):
                'cleared before the first line on every path: %s' % (bool(clears) and not stale))
 
 
+def r14(ctx):
+    ctx.rule('C09.R14', 'a loop over the parts of a chained message addresses the part it is at: in the eBUS library sources every store to an '
+             'element of a vector inside a counting loop depends on the iteration - the element index, or the stored value, '
+             'mentions the loop variable or something the loop changes. A store that is the same in every pass is a slip of the '
+             'index (prepareMasterPart has to forget the arrival times of ALL parts when a chained read starts over; otherwise '
+             'the answer of the first part is joined with the other parts of the previous round)', minimum=8)
+    fb = ctx.fb
+    n = 0
+    seen = set()
+    for fn in fb.functions:
+        if not fn.relfile.startswith('src/lib/ebus/') or not fn.nodes or (fn.name, fn.sig) in seen:
+            continue
+        seen.add((fn.name, fn.sig))
+        for f in fn.all('ForStmt'):
+            v = fn.nodes[f]
+            if v.get('init') is None or v.get('body') is None:
+                continue
+            iv = [d.get('decl') for x in fn.walk(v['init']) if fn.nodes[x]['k'] == 'DeclStmt' for d in fn.nodes[x].get('decls', [])]
+            if len(iv) != 1:
+                continue
+            inner = set()
+            for x in fn.walk(v['body']):
+                if x != f and fn.nodes[x]['k'] in ('ForStmt', 'WhileStmt', 'DoStmt', 'CXXForRangeStmt'):
+                    inner |= set(fn.walk(x))
+            region = set(fn.walk(v['body'])) | (set(fn.walk(v['inc'])) if v.get('inc') is not None else set())
+            changed = set([iv[0]])
+            for nid, d, rhs, op, lhs in fn.assignments():
+                if nid in region and d:
+                    changed.add(d)
+            for nid, d, rhs, op, lhs in fn.assignments():
+                if nid not in set(fn.walk(v['body'])) or nid in inner or lhs is None or op == 'init':
+                    continue
+                l = fn.nodes[fn.strip(lhs)]
+                if not (l.get('k') == 'ArraySubscriptExpr' or (l.get('k') == 'CXXOperatorCallExpr' and l.get('op') == '[]')):
+                    continue
+                n += 1
+                ctx.touch(fn)
+                nodes = list(fn.walk(nid))
+                dep = any(fn.ref_decl(x) in changed for x in nodes if fn.nodes[x]['k'] in ('DeclRefExpr', 'MemberExpr')) or \
+                    any(fn.nodes[x]['k'] == 'UnaryOperator' and fn.nodes[x].get('op') in ('++', '--') for x in nodes)
+                calls = any(fn.nodes[x]['k'] in ('CallExpr', 'CXXMemberCallExpr') and
+                            (fn.nodes[x].get('callee') or '').split('::')[-1] not in ('size', 'length') for x in nodes)
+                # a chained assignment a[i] = b[i] = 0 is reported once, at the outer store
+                par = fn.nodes.get(fn.parent(nid), {})
+                if par.get('k') in ('BinaryOperator',) and par.get('op') == '=' and par.get('rhs') == nid:
+                    n -= 1
+                    continue
+                ctx.ob('C09.R14', fn, nid, dep or calls, 'store in a loop of %s' % fn.name.split('::', 1)[1],
+                       'depends on the iteration: %s (%s)' % (dep or calls, fn.key(lhs)[:60]))
+    if n < 8:
+        raise AnalysisBroken('C09.R14: only %d element stores in counting loops found' % n)
+
+
 def run(ctx):
+    r14(ctx)
     file_state_rule(ctx, 'C09.R13')
     r11(ctx)
     r10(ctx)
